@@ -43,6 +43,7 @@ const (
 	fidF3         = "C08-F3"     // catch-up start leaves the previous-finalization values empty
 	fidF4         = "C08-F4"     // second stale strategy result deadlocks consensus manager and state machine
 	fidRestartFin = "C02-F1"     // second restart during commit wait re-enters a finalized height
+	fidA7b        = "C03-A7b"    // mirror: entrance for a round beyond the committing round of the committing height
 	fidResign     = "C02-RESIGN" // restart in a round with a recorded vote: strategy consulted and signer called again
 )
 
@@ -203,6 +204,13 @@ func (s *sim) idle() bool {
 	if s.pendingEnt != nil {
 		return false
 	}
+	if s.model.phase == phReplay {
+		// A replaying machine sits in its catch-up select, which takes nothing but the
+		// finalization response (no views, timers, strategy results, block data: the probe
+		// channel is not read there). Its progress is demanded by the finalize-request and
+		// next-entrance expectations of the model instead.
+		return true
+	}
 	if s.stratPending() == nil {
 		return true
 	}
@@ -291,7 +299,7 @@ func (s *sim) settle() {
 			w.evLocked("fin-req", fr.Header.Height, fr.Round, string(fr.Header.Hash), nil, nil)
 			w.mu.Unlock()
 			s.finReqs = append(s.finReqs, rec)
-			s.model.onFinReq(rec.epoch, string(fr.Header.Hash), fr.Header.Height)
+			s.model.onFinReq(rec.epoch, string(fr.Header.Hash), fr.Header.Height, fr.Round)
 			progressed = true
 		default:
 		}
@@ -399,8 +407,7 @@ func (s *sim) judge() {
 		if !canCompare {
 			if s.stratPending() == nil {
 				canCompare = true
-				pureReplay := m.phase == phReplay && !s.everVRV
-				if !pureReplay && m.phase != phStopped && !s.probe() {
+				if m.phase != phReplay && m.phase != phStopped && !s.probe() {
 					fid := ""
 					if h, r, ok := s.smPos(); ok && m.resignTrigger[fmt.Sprintf("%d|%d", h, r)] {
 						fid = fidResign
@@ -409,7 +416,7 @@ func (s *sim) judge() {
 					canCompare = false
 				}
 			} else {
-				canCompare = s.probe()
+				canCompare = m.phase == phReplay || s.probe()
 			}
 		}
 		if canCompare {
@@ -544,6 +551,15 @@ func (s *sim) opEntrance() {
 		e.chHash = a.ch.cand.hash
 		s.pendingEnt = nil
 		s.labels["catchup"] = true
+		switch {
+		case a.ch.proof.Round > e.re.R:
+			s.labels["catchup-committed-in-later-round"] = true
+		case a.ch.proof.Round < e.re.R:
+			s.labels["catchup-committed-in-earlier-round"] = true
+		}
+		if s.everVRV {
+			s.labels["catchup-after-live-round"] = true
+		}
 		s.w.ev("entrance-ch", e.re.H, e.re.R, a.ch.cand.hash, nil, nil)
 		s.model.onEntranceCH(a.ch.cand.hash)
 		e.re.Response <- tmeil.RoundEntranceResponse{CH: tmconsensus.CommittedHeader{Header: a.ch.cand.ph.Header, Proof: a.ch.proof}}
@@ -884,6 +900,12 @@ func (s *sim) opBlockData(a, b int) {
 		bh = h + 1
 	}
 	id := string(s.candFor(h, r, b%smMaxCands).ph.Header.DataID)
+	if b >= smMaxCands && r > 0 {
+		// data first proposed in the previous round (a later round may re-propose it; a machine
+		// that is only replaying this round still holds the previous round's view)
+		id = string(s.candFor(h, r-1, b%smMaxCands).ph.Header.DataID)
+		s.labels["block-data-of-previous-round"] = true
+	}
 	select {
 	case s.bdCh <- tmelink.BlockDataArrival{Height: bh, Round: br, ID: id}:
 		s.w.ev("block-data", bh, br, id, nil, nil)
